@@ -6,6 +6,7 @@ capacity and a frame push beyond the frame capacity are `crash` results (the Rus
 debug assertions).  `extraCells`/`extraFrames` are the formulas of `src/analysis.rs`.
 -/
 import SimplicityModel.Exec
+import SimplicityModel.BoundsTie
 import SimplicityModel.Prog.ElabProps
 import SimplicityModel.Gen.Consts
 
@@ -59,6 +60,18 @@ leave room for the `usize` arithmetic of the code -/
 theorem limits_as_in_source :
     Gen.Consts.MAX_CELLS = 2147483647 ∧ Gen.Consts.MAX_FRAMES = 1048576 ∧ Gen.Consts.IO_EXTRA_FRAMES = 2 := by
   decide
+
+/-- **The bounds the theorems speak about are the bounds the code computes**: folding the
+constructors of `impl NodeBounds` (src/analysis.rs) over a program the way `RedeemData::new`
+(src/node/redeem.rs) does — both regenerated from the source on every run into `Gen/Bounds.lean` —
+gives exactly the `extraCells` and `extraFrames` with which `run_never_crashes` and
+`bounds_cover_every_execution` are stated. -/
+theorem bounds_as_in_source {a b : BM4.Ty} (t : BM4.Term a b) :
+    (BoundsTie.boundsOf t).extra_cells = BM4.extraCells t ∧
+    (BoundsTie.boundsOf t).extra_frames = BM4.extraFrames t :=
+  ⟨BoundsTie.boundsOf_cells t, BoundsTie.boundsOf_frames t⟩
+
+example : (BoundsTie.boundsOf (BM4.Term.comp (BM4.Term.unit (a := .sum .one .one)) (BM4.Term.witness (b := .sum .one .one) (.inl .unit)))).extra_frames = 1 := by decide
 
 example : checkProgram 8 8 100 3 = true ∧ checkProgram 8 8 2147483640 3 = false := by decide
 
